@@ -1,15 +1,14 @@
 (* IrcProofs/ReloadSim.v — the IRC state machine does not look at what save + load changes (C03, part 3).
 
-   Save + load changes two things in a reachable state (Reload.v): it forgets Config.WhitelistedOrigins, and it
-   rebuilds [sv_serverSessions] from the sessions (sorted, without duplicates, without the ids of services links
-   that have quit).  This file proves that both are invisible to every handler: [R D] relates two states that agree
-   everywhere except in WhitelistedOrigins and in [sv_serverSessions], where they list the same ids as far as ids
-   outside [D] are concerned; it is a BISIMULATION — applying the same log entry to related states gives the same
+   Save + load changes one thing in a reachable state (Reload.v): it rebuilds [sv_serverSessions] from the sessions
+   (sorted, without duplicates, without the ids of services links that have quit).  This file proves that this is
+   invisible to every handler: [R D] relates two states that agree everywhere except in [sv_serverSessions], where
+   they list the same ids as far as ids outside [D] are concerned; it is a BISIMULATION — applying the same log entry to related states gives the same
    kind of outcome (including the same panic, if any), related successor states and the same output messages: same
    reply numbers, same text, same recipients outside [D].  With [D] empty the outputs are literally equal.
 
    The proof is a binary logical relation over the handler monad ([sim m1 m2]: the same handler started in related
-   states with related outputs so far).  A related state is always of the form [patch l w sv]; reading the state
+   states with related outputs so far).  A related state is always of the form [patch l sv]; reading the state
    ([getS]) on the right-hand side therefore yields a term that differs from the left-hand side by conversion only,
    except at [sv_serverSessions], which only ever flows into recipient lists.  No invariant of the state is needed. *)
 From stdpp Require Import gmap.
@@ -18,18 +17,13 @@ From RV Require Import Base.Text Irc.Str Irc.Parse Irc.State Irc.Monad Irc.Cmds 
 From RV Require Import IrcProofs.StrLemmas IrcProofs.Top IrcProofs.Outputs IrcProofs.Misc.
 Local Open Scope string_scope.
 
-(* the state with the two fields replaced *)
-Definition cpatch (w : gset string) (g : config) : config :=
-  Config (g_revision g) (g_expiration g) (g_cooloff g) (g_maxSessions g) (g_maxChannels g) (g_captchaURL g)
-         (g_captchaHMAC g) (g_captchaLogin g) (g_operators g) (g_services g) (g_banned g) (g_trustedBridges g) w.
-Definition patch (l : list N) (w : gset string) (sv : server) : server :=
+(* the state with the list of services links replaced *)
+Definition patch (l : list N) (sv : server) : server :=
   Server (sv_sessions sv) l (sv_nicks sv) (sv_channels sv) (sv_svsholds sv) (sv_netname sv) (sv_lastProcessed sv)
-         (cpatch w (sv_config sv)).
+         (sv_config sv).
 
-Lemma cpatch_id g : cpatch (g_whitelistedOrigins g) g = g.
-Proof. destruct g; reflexivity. Qed.
-Lemma patch_id sv : patch (sv_serverSessions sv) (g_whitelistedOrigins (sv_config sv)) sv = sv.
-Proof. destruct sv as [? ? ? ? ? ? ? g]; destruct g; reflexivity. Qed.
+Lemma patch_id sv : patch (sv_serverSessions sv) sv = sv.
+Proof. destruct sv; reflexivity. Qed.
 
 Lemma SS_filter (f : N -> bool) l : StronglySorted N.lt l -> StronglySorted N.lt (List.filter f l).
 Proof.
@@ -61,7 +55,7 @@ Section Sim.
   Qed.
 
   Definition R (sv1 sv2 : server) : Prop :=
-    exists l w, sv2 = patch l w sv1 /\ eqD (sv_serverSessions sv1) l.
+    exists l, sv2 = patch l sv1 /\ eqD (sv_serverSessions sv1) l.
 
   (* one output message with the unobserved recipients removed *)
   Definition proj_out (o : omsg) : omsg := OMsg (o_reply o) (o_data o) (List.filter nD (o_rcpt o)).
@@ -88,26 +82,20 @@ Section Sim.
   Qed.
   (* reading the state: the right-hand side reads a patched copy of what the left-hand side reads *)
   Lemma sim_bind_getS {B} (f1 f2 : server -> M B) :
-    (forall sv l w, eqD (sv_serverSessions sv) l -> sim (f1 sv) (f2 (patch l w sv))) ->
+    (forall sv l, eqD (sv_serverSessions sv) l -> sim (f1 sv) (f2 (patch l sv))) ->
     sim (bindM getS f1) (bindM getS f2).
   Proof.
-    intros Hf sv1 sv2 r1 r2 HR Hr. unfold bindM, getS. destruct HR as (l & w & -> & Hl).
-    apply (Hf sv1 l w Hl); [exists l, w; auto|exact Hr].
-  Qed.
-  Lemma sim_bind_cfgM {B} (f1 f2 : config -> M B) :
-    (forall g w, sim (f1 g) (f2 (cpatch w g))) -> sim (bindM cfgM f1) (bindM cfgM f2).
-  Proof.
-    intros Hf sv1 sv2 r1 r2 HR Hr. unfold cfgM; unfold bindM, getS, retM. destruct HR as (l & w & -> & Hl).
-    apply (Hf (sv_config sv1) w); [exists l, w; auto|exact Hr].
+    intros Hf sv1 sv2 r1 r2 HR Hr. unfold bindM, getS. destruct HR as (l & -> & Hl).
+    apply (Hf sv1 l Hl); [exists l; auto|exact Hr].
   Qed.
   Lemma sim_panic {A} s : sim (@panicM A s) (@panicM A s).
   Proof. intros sv1 sv2 r1 r2 HR Hr. reflexivity. Qed.
   Lemma sim_gap {A} s : sim (@gapM A s) (@gapM A s).
   Proof. intros sv1 sv2 r1 r2 HR Hr. reflexivity. Qed.
   Lemma sim_modS f1 f2 :
-    (forall sv l w, eqD (sv_serverSessions sv) l -> R (f1 sv) (f2 (patch l w sv))) -> sim (modS f1) (modS f2).
+    (forall sv l, eqD (sv_serverSessions sv) l -> R (f1 sv) (f2 (patch l sv))) -> sim (modS f1) (modS f2).
   Proof.
-    intros Hf sv1 sv2 r1 r2 HR Hr. unfold modS. destruct HR as (l & w & -> & Hl). split; [reflexivity|]. split; [|exact Hr].
+    intros Hf sv1 sv2 r1 r2 HR Hr. unfold modS. destruct HR as (l & -> & Hl). split; [reflexivity|]. split; [|exact Hr].
     now apply Hf.
   Qed.
   Lemma sim_liftR {A} (x1 x2 : res A) : x1 = x2 -> sim (liftR x1) (liftR x2).
@@ -129,42 +117,41 @@ Section Sim.
   Proof. intros Hf. induction l as [|x l IH]; cbn [forM]; [apply sim_ret|]. apply sim_bind; [apply Hf|intros _; exact IH]. Qed.
 
   (* the functions that take the whole state and recurse: they read the nick index and the channels only *)
-  Lemma ids_of_members_patch l w sv ns : ids_of_members (patch l w sv) ns = ids_of_members sv ns.
+  Lemma ids_of_members_patch l sv ns : ids_of_members (patch l sv) ns = ids_of_members sv ns.
   Proof. induction ns as [|n ns IH]; cbn [ids_of_members]; [reflexivity|]. rewrite IH. reflexivity. Qed.
-  Lemma ids_of_members_but_patch l w sv but ns : ids_of_members_but (patch l w sv) but ns = ids_of_members_but sv but ns.
+  Lemma ids_of_members_but_patch l sv but ns : ids_of_members_but (patch l sv) but ns = ids_of_members_but sv but ns.
   Proof. induction ns as [|n ns IH]; cbn [ids_of_members_but]; [reflexivity|]. rewrite IH. reflexivity. Qed.
-  Lemma rc_channel_patch l w sv c : rc_channel (patch l w sv) c = rc_channel sv c.
+  Lemma rc_channel_patch l sv c : rc_channel (patch l sv) c = rc_channel sv c.
   Proof. apply ids_of_members_patch. Qed.
-  Lemma rc_channel_but_patch l w sv c but : rc_channel_but (patch l w sv) c but = rc_channel_but sv c but.
+  Lemma rc_channel_but_patch l sv c but : rc_channel_but (patch l sv) c but = rc_channel_but sv c but.
   Proof. unfold rc_channel_but. now rewrite ids_of_members_patch, ids_of_members_but_patch. Qed.
-  Lemma rc_common_aux_patch l w sv chs : rc_common_aux (patch l w sv) chs = rc_common_aux sv chs.
+  Lemma rc_common_aux_patch l sv chs : rc_common_aux (patch l sv) chs = rc_common_aux sv chs.
   Proof.
     induction chs as [|ch chs IH]; cbn [rc_common_aux]; [reflexivity|]. rewrite IH.
-    change (sv_channels (patch l w sv)) with (sv_channels sv). destruct (sv_channels sv !! ch) as [c|]; [|reflexivity].
+    change (sv_channels (patch l sv)) with (sv_channels sv). destruct (sv_channels sv !! ch) as [c|]; [|reflexivity].
     now rewrite rc_channel_patch.
   Qed.
-  Lemma rc_common_patch l w sv s : rc_common (patch l w sv) s = rc_common sv s.
+  Lemma rc_common_patch l sv s : rc_common (patch l sv) s = rc_common sv s.
   Proof. apply rc_common_aux_patch. Qed.
 End Sim.
 
 Ltac norm :=
-  cbn [patch cpatch sv_sessions sv_serverSessions sv_nicks sv_channels sv_svsholds sv_netname sv_lastProcessed sv_config
+  cbn [patch sv_sessions sv_serverSessions sv_nicks sv_channels sv_svsholds sv_netname sv_lastProcessed sv_config
        g_revision g_expiration g_cooloff g_maxSessions g_maxChannels g_captchaURL g_captchaHMAC g_captchaLogin
        g_operators g_services g_banned g_trustedBridges g_whitelistedOrigins].
 
 Ltac solve_eqD :=
   repeat first [ assumption | apply eqD_refl | apply eqD_app ].
 
-(* R (f sv) (f (patch l w sv)) for the field setters *)
+(* R (f sv) (f (patch l sv)) for the field setters *)
 Ltac solve_R :=
-  let sv0 := fresh "sv" in let l0 := fresh "l" in let w0 := fresh "w" in let H0 := fresh "Hl" in
-  intros sv0 l0 w0 H0; eexists _, _; split; [reflexivity|];
+  let sv0 := fresh "sv" in let l0 := fresh "l" in let H0 := fresh "Hl" in
+  intros sv0 l0 H0; eexists _; split; [reflexivity|];
   first [ exact H0 | apply eqD_app; [exact H0|apply eqD_refl] ].
 
 Ltac sim_step :=
   lazymatch goal with
-  | |- sim _ (bindM getS _) (bindM getS _) => apply sim_bind_getS; intros ? ? ? ?; cbv beta; norm
-  | |- sim _ (bindM cfgM _) (bindM cfgM _) => apply sim_bind_cfgM; intros ? ?; cbv beta; norm
+  | |- sim _ (bindM getS _) (bindM getS _) => apply sim_bind_getS; intros ? ? ?; cbv beta; norm
   | |- sim _ (bindM _ _) (bindM _ _) => apply sim_bind; [|intros ?]
   | |- sim _ (retM _) (retM _) => apply sim_ret
   | |- sim _ (panicM _) (panicM _) => apply sim_panic
@@ -185,7 +172,7 @@ Section Handlers.
   Variable D : N -> bool.
   Notation sim := (sim D).
 
-  Ltac unf := unfold reply_num, reply_svc, sessM, updSess, updChan, chanM, nickM, param, prefix_name, msg_prefix,
+  Ltac unf := unfold reply_num, reply_svc, sessM, updSess, updChan, chanM, nickM, cfgM, param, prefix_name, msg_prefix,
                 chanop_of, captcha_url_check, add_member, leave_channel, maybe_delete_channel,
                 remove_nick_everywhere, rename_in_channels, change_nick, create_session,
                 srvmsg, server_prefix, rc_services, rc_all, member_session, resolve_remote, captcha_configured, auth_oper.
@@ -257,7 +244,7 @@ Section Handlers.
   Lemma s_cmd_gline k m : sim (cmd_gline k m) (cmd_gline k m).
   Proof. unfold cmd_gline. unf. go; try apply s_cmd_kill. Qed.
   (* services *)
-  Lemma s_burst_one sv l w t : eqD D (sv_serverSessions sv) l -> sim (burst_one sv t) (burst_one (patch l w sv) t).
+  Lemma s_burst_one sv l t : eqD D (sv_serverSessions sv) l -> sim (burst_one sv t) (burst_one (patch l sv) t).
   Proof. intros Hl. unfold burst_one. unf. norm. go. Qed.
   Lemma s_cmd_server k m : sim (cmd_server k m) (cmd_server k m).
   Proof. unfold cmd_server. unf. go; try (apply s_burst_one; assumption). Qed.
@@ -328,23 +315,23 @@ Section Handlers.
   Notation R := (R D).
 
   Lemma R_refl sv : R sv sv.
-  Proof. exists (sv_serverSessions sv), (g_whitelistedOrigins (sv_config sv)). split; [symmetry; apply patch_id|apply eqD_refl]. Qed.
+  Proof. exists (sv_serverSessions sv). split; [symmetry; apply patch_id|apply eqD_refl]. Qed.
 
-  (* related states agree on everything but the two fields *)
+  (* related states agree on everything but the list of services links *)
   Lemma R_fields sv1 sv2 : R sv1 sv2 ->
     sv_sessions sv2 = sv_sessions sv1 /\ sv_nicks sv2 = sv_nicks sv1 /\ sv_channels sv2 = sv_channels sv1 /\
     sv_svsholds sv2 = sv_svsholds sv1 /\ sv_netname sv2 = sv_netname sv1 /\ sv_lastProcessed sv2 = sv_lastProcessed sv1 /\
-    sv_config sv2 = cpatch (g_whitelistedOrigins (sv_config sv2)) (sv_config sv1) /\
+    sv_config sv2 = sv_config sv1 /\
     eqD D (sv_serverSessions sv1) (sv_serverSessions sv2).
-  Proof. intros (l & w & -> & Hl). do 7 (split; [reflexivity|]). exact Hl. Qed.
+  Proof. intros (l & -> & Hl). do 7 (split; [reflexivity|]). exact Hl. Qed.
 
   Lemma R_intro sv1 sv2 :
     sv_sessions sv2 = sv_sessions sv1 -> sv_nicks sv2 = sv_nicks sv1 -> sv_channels sv2 = sv_channels sv1 ->
     sv_svsholds sv2 = sv_svsholds sv1 -> sv_netname sv2 = sv_netname sv1 -> sv_lastProcessed sv2 = sv_lastProcessed sv1 ->
-    (exists w, sv_config sv2 = cpatch w (sv_config sv1)) ->
+    sv_config sv2 = sv_config sv1 ->
     eqD D (sv_serverSessions sv1) (sv_serverSessions sv2) -> R sv1 sv2.
   Proof.
-    intros H1 H2 H3 H4 H5 H6 [w H7] H8. exists (sv_serverSessions sv2), w. split; [|exact H8].
+    intros H1 H2 H3 H4 H5 H6 H7 H8. exists (sv_serverSessions sv2). split; [|exact H8].
     destruct sv2. cbn in *. subst. reflexivity.
   Qed.
 
@@ -360,12 +347,12 @@ Section Handlers.
     | _, _ => False
     end.
 
-  Lemma update_last_cmid_patch k ts d c l w sv :
-    update_last_cmid k ts d c (patch l w sv) = patch l w <$> update_last_cmid k ts d c sv.
+  Lemma update_last_cmid_patch k ts d c l sv :
+    update_last_cmid k ts d c (patch l sv) = patch l <$> update_last_cmid k ts d c sv.
   Proof. unfold update_last_cmid. norm. destruct (sv_sessions sv !! k); reflexivity. Qed.
 
-  Lemma maybe_delete_session_patch k l w sv :
-    maybe_delete_session k (patch l w sv) = patch l w (maybe_delete_session k sv).
+  Lemma maybe_delete_session_patch k l sv :
+    maybe_delete_session k (patch l sv) = patch l (maybe_delete_session k sv).
   Proof.
     unfold maybe_delete_session. norm. destruct (sv_sessions sv !! k) as [s|]; [|reflexivity].
     destruct (s_server s || s_operator s), (s_deleted s); reflexivity.
@@ -375,7 +362,7 @@ Section Handlers.
   Proof. unfold same_out. intros H. rewrite !map_rev, H. reflexivity. Qed.
 
   Lemma run_handler_sim e k ra ircmsg sv1 sv2 msgid finish :
-    R sv1 sv2 -> (forall l w sv, finish (patch l w sv) = patch l w (finish sv)) ->
+    R sv1 sv2 -> (forall l sv, finish (patch l sv) = patch l (finish sv)) ->
     Rout (run_handler sv1 msgid (process_message e k ra ircmsg) finish)
          (run_handler sv2 msgid (process_message e k ra ircmsg) finish).
   Proof.
@@ -384,10 +371,10 @@ Section Handlers.
     pose proof (s_process_message e k ra ircmsg sv1 sv2 _ _ HR Hr0) as H.
     destruct (process_message e k ra ircmsg sv1 _) as [[[[] s1] q1]|x|x],
              (process_message e k ra ircmsg sv2 _) as [[[[] s2] q2]|y|y]; try contradiction; try exact H.
-    destruct H as (_ & (l & w & -> & Hl) & [_ Hout]). cbn [Rout]. split.
-    - rewrite Hfin. exists l, w. split; [reflexivity|].
+    destruct H as (_ & (l & -> & Hl) & [_ Hout]). cbn [Rout]. split.
+    - rewrite Hfin. exists l. split; [reflexivity|].
       (* finish does not touch the list *)
-      specialize (Hfin (sv_serverSessions s1) (g_whitelistedOrigins (sv_config s1)) s1). rewrite patch_id in Hfin.
+      specialize (Hfin (sv_serverSessions s1) s1). rewrite patch_id in Hfin.
       pose proof (f_equal sv_serverSessions (Hfin)) as E. cbn [patch sv_serverSessions] in E. rewrite E. exact Hl.
     - apply same_out_rev. exact Hout.
   Qed.
@@ -403,26 +390,26 @@ Section Handlers.
       destruct (create_session _ _ _ sv1 _) as [[[b1 s1] q1]|x|x], (create_session _ _ _ sv2 _) as [[[b2 s2] q2]|y|y];
         try contradiction; try exact Hc.
       destruct Hc as (<- & HR' & _). destruct b1; cbn [Rout]; [split; [exact HR'|reflexivity]|exact HR'].
-    - destruct HR as (l & w & -> & Hl). norm.
+    - destruct HR as (l & -> & Hl). norm.
       destruct (sv_sessions sv1 !! (session, 0%N)).
-      + apply run_handler_sim; [exists l, w; auto|]. intros l' w' sv'. now rewrite <- maybe_delete_session_patch.
-      + cbn [Rout]. split; [exists l, w; auto|reflexivity].
-    - destruct HR as (l & w & -> & Hl). change (is_retry (session, 0%N) cmid (patch l w sv1)) with (is_retry (session, 0%N) cmid sv1).
-      destruct (is_retry _ _ sv1); [cbn [Rout]; split; [exists l, w; auto|reflexivity]|].
+      + apply run_handler_sim; [exists l; auto|]. intros l' sv'. now rewrite <- maybe_delete_session_patch.
+      + cbn [Rout]. split; [exists l; auto|reflexivity].
+    - destruct HR as (l & -> & Hl). change (is_retry (session, 0%N) cmid (patch l sv1)) with (is_retry (session, 0%N) cmid sv1).
+      destruct (is_retry _ _ sv1); [cbn [Rout]; split; [exists l; auto|reflexivity]|].
       rewrite update_last_cmid_patch. destruct (update_last_cmid _ _ _ _ sv1) as [sv1'|] eqn:Hu; cbn [fmap option_fmap option_map].
       + apply run_handler_sim.
-        * exists l, w. split; [reflexivity|]. unfold update_last_cmid in Hu.
+        * exists l. split; [reflexivity|]. unfold update_last_cmid in Hu.
           destruct (sv_sessions sv1 !! (session, 0%N)); [|discriminate]. injection Hu as <-. exact Hl.
-        * intros l' w' sv'. now rewrite <- maybe_delete_session_patch.
-      + cbn [Rout]. exists l, w. auto.
-    - destruct HR as (l & w & -> & Hl). rewrite update_last_cmid_patch.
+        * intros l' sv'. now rewrite <- maybe_delete_session_patch.
+      + cbn [Rout]. exists l. auto.
+    - destruct HR as (l & -> & Hl). rewrite update_last_cmid_patch.
       destruct (update_last_cmid _ _ _ _ sv1) as [sv1'|] eqn:Hu; cbn [fmap option_fmap option_map Rout].
-      + split; [|reflexivity]. exists l, w. split; [reflexivity|]. unfold update_last_cmid in Hu.
+      + split; [|reflexivity]. exists l. split; [reflexivity|]. unfold update_last_cmid in Hu.
         destruct (sv_sessions sv1 !! (session, 0%N)); [|discriminate]. injection Hu as <-. exact Hl.
-      + exists l, w. auto.
-    - destruct HR as (l & w & -> & Hl). destruct parsed as [g|]; cbn [Rout]; (split; [|reflexivity]).
-      + exists l, (g_whitelistedOrigins g). split; [|exact Hl]. reflexivity.
-      + exists l, w. auto.
+      + exists l. auto.
+    - destruct HR as (l & -> & Hl). destruct parsed as [g|]; cbn [Rout]; (split; [|reflexivity]).
+      + exists l. split; [|exact Hl]. reflexivity.
+      + exists l. auto.
   Qed.
 
   (* ---- histories ----------------------------------------------------------------------------------------------- *)
